@@ -465,8 +465,9 @@ def run_shard(ctx):
     pm = _pm()
     n = int(ctx.params.get("histories", 100))
     rng = ctx.rng(0)
+    t_histories = ctx.time_left() * 0.45        # the document phase below must get its share of the budget
     for i in range(n):
-        if i % 16 == 0 and ctx.out_of_time():
+        if i % 16 == 0 and (ctx.out_of_time() or ctx.time_left() < t_histories):
             ctx.note("stopped_early_at", i)
             break
         H = gen_history(rng)
